@@ -31,11 +31,12 @@ THEOREMS = [
     "live_iff", "aabb_contains", "aabb_tight",
     "winding_pair_correct", "winding_table", "flip_makes_nonneg", "orient_consistent_partial", "orient_all_consistent",
     "closed_flipAll", "orient_outward", "cube_nbGood",
+    "orient_terminates", "orient_consistent", "orient_outward_proved", "cube_gatePre",
     "normal_along_winding", "vol_eq_normal_flux_centred", "vol_eq_normal_flux", "normal_translate", "normal_rotate",
     "cov_follows", "longest_axis_follows_partial",
     "rotation_matrix_is_rot", "reflection_matrix_is_refl", "closed_antisym_sum_zero",
 ]
-GEN = ["Geometry"]
+GEN = ["Geometry", "GateConsts"]      # GateConsts: which tests initialize_cell_properties(true) contains (hypotheses of orient_consistent)
 EPS = 2.0 ** -53
 HARNESS = os.path.join(vlib.VERIF, "harness", "h_geometry.cpp")
 
@@ -393,8 +394,9 @@ def run(ctx):
     t0 = time.time()
     V = vlib.Verdict(PID)
     gen = vlib.translate.run(GEN)
-    if "error" in gen.get("Geometry", {}):
-        V.fail_tie("proof", "translator: " + gen["Geometry"]["error"])
+    for g in GEN:
+        if "error" in gen.get(g, {}):
+            V.fail_tie("proof", "translator (%s): %s" % (g, gen[g]["error"]))
     proof = vlib.prove(PID, THEOREMS, NAMESPACE, extra_targets=("drv_c12",))
     for f in proof["failures"]:
         V.fail_tie("proof", "%s: %s" % (f["theorem"], f["reason"]), errors=proof["errors"][:5])
